@@ -49,34 +49,42 @@ package replace
 //@ func getPointerFromKey(sp, key)
 //@   aspect safe
 //@   requires len(key) >= 1 && isDoc(sp)
-//@   modifies nothing
+//@   modifies ghost failed
 //@   trusted_ensures result2 == nil ==> keyOK(sp, key)
+//@   ensures result2 == nil ==> failed == old(failed)
 //@ func getParentFromKey(sp, key)
 //@   aspect safe
 //@   requires len(key) >= 1 && isDoc(sp)
-//@   modifies nothing
+//@   modifies ghost failed
 //@   trusted_ensures result3 == nil && keyOK(sp, key) ==> holds(result2, result1)
 //@   trusted_ensures result3 == nil ==> keyOK(sp, "#" + result)
+//@   ensures result3 == nil ==> failed == old(failed)
 //@ func UpdateRef(sp, key, ref)
 //@   aspect safe
 //@   requires len(key) >= 1 && isDoc(sp)
-//@   modifies heaps DOC
+//@   modifies heaps DOC, ghost failed
+//@   ensures result == nil ==> failed == old(failed)
 //@ func UpdateRefWithSchema(sp, key, sch)
 //@   aspect safe
 //@   requires len(key) >= 1 && sp != nil && sch != nil
-//@   modifies heaps DOC
+//@   modifies heaps DOC, ghost failed
+//@   ensures result == nil ==> failed == old(failed)
 //@ func RewriteSchemaToRef(sp, key, ref)
 //@   aspect safe
 //@   requires len(key) >= 1 && sp != nil
-//@   modifies heaps DOC, heap any
+//@   modifies heaps DOC, heap any, ghost failed
+//@   ensures result == nil ==> failed == old(failed)
 //@ func rewriteParentRef(sp, key, ref)
 //@   aspect safe
 //@   requires len(key) >= 1 && sp != nil && keyOK(box(sp), key)
-//@   modifies heaps DOC, heap any
+//@   modifies heaps DOC, heap any, ghost failed
+//@   ensures result == nil ==> failed == old(failed)
 //@ func DeepestRef(sp, opts, ref)
 //@   aspect safe
 //@   requires sp != nil
-//@   modifies nothing
+//@   modifies ghost failed
 //@   ensures result1 == nil ==> result != nil
 //@   ensures result1 == nil && ref.String() != "" ==> result.Ref.String() != ""
+//@   ensures result1 == nil ==> failed == old(failed)
 //@   loop 1: invariant ref.String() != "" ==> currentRef.String() != ""
+//@   loop 1: invariant failed == old(failed)
